@@ -400,9 +400,16 @@ def kani_playback(work: Path, ob_file, fq_name, log_path: Path, timeout_s=1200):
     tname = m.group(1) if m else None
     vals = re.findall(r"//\s*(.*)\n\s*vec!\[([^\]]*)\]", test_src)
     hf = work / "src" / "verif" / ob_file
-    with open(hf, "a") as fh:
-        fh.write("\n" + test_src + "\n")
-    rc2, out2, _ = sh(["cargo", "kani", "playback", "-Z", "concrete-playback", "--", tname], cwd=work, timeout=timeout_s)
+    # splice only the test item: the doc comment Kani prints above it quotes the failed assertion, and a multi-line
+    # assertion text breaks out of the `///` lines (unterminated string => the whole copy no longer compiles)
+    i_test = test_src.find("#[test]")
+    splice = test_src[i_test:] if i_test >= 0 else test_src
+    original = hf.read_text()
+    hf.write_text(original + "\n" + splice + "\n")
+    try:
+        rc2, out2, _ = sh(["cargo", "kani", "playback", "-Z", "concrete-playback", "--", tname], cwd=work, timeout=timeout_s)
+    finally:
+        hf.write_text(original)
     with open(log_path, "a") as fh:
         fh.write("$ cargo kani playback -- %s\n%s\n" % (tname, out2[-8000:]))
     panicked = "panicked at" in out2 and "test result: FAILED" in out2
